@@ -435,8 +435,101 @@ fn scenario(name: &str) -> Option<Scenario<S>> {
     })
 }
 
+// ------------------------------------------------------------------ long chains (sequential; each case in its own process)
+/// Chains of many blocks: N x 64 + 5 values with a destructor are pushed, ONE clear_with takes them all (each handed over
+/// exactly once), then the epoch collector is driven. Every value's destructor runs at most once (and the process
+/// survives: a block released twice is a double free). What "released twice" looks like is a dead process, so every N
+/// runs in a grand-child process (this binary with C05_CHAIN_PROBE set) that reports a second destructor run the moment
+/// it happens.
+struct ChainVal {
+    id: u32,
+}
+static CHAIN_DROPS: [std::sync::atomic::AtomicU8; 8192] = {
+    #[allow(clippy::declare_interior_mutable_const)]
+    const Z: std::sync::atomic::AtomicU8 = std::sync::atomic::AtomicU8::new(0);
+    [Z; 8192]
+};
+impl Drop for ChainVal {
+    fn drop(&mut self) {
+        let n = CHAIN_DROPS.get(self.id as usize).map(|c| c.fetch_add(1, Ordering::SeqCst) + 1).unwrap_or(99);
+        if n != 1 {
+            use std::io::Write;
+            println!("DOUBLE id={} times={}", self.id, n);
+            let _ = std::io::stdout().flush();
+        }
+    }
+}
+fn chain_probe(arg: &str) -> ! {
+    use std::io::Write;
+    let blocks: usize = arg.parse().unwrap();
+    let n = blocks * 64 + 5;
+    let b: AtomicBucket<ChainVal> = AtomicBucket::new();
+    for round in 0..2 {
+        let base = round * n;
+        for i in 0..n {
+            b.push(ChainVal { id: (base + i) as u32 });
+        }
+        let mut seen = vec![0u8; n];
+        b.clear_with(|vals| {
+            for v in vals {
+                if let Some(x) = seen.get_mut(v.id as usize - base) {
+                    *x += 1;
+                }
+            }
+        });
+        if seen.iter().any(|x| *x != 1) {
+            println!("HANDOVER round={} missing={} twice={}", round, seen.iter().filter(|x| **x == 0).count(), seen.iter().filter(|x| **x > 1).count());
+        }
+        for _ in 0..256 {
+            crossbeam_epoch::pin().flush();
+        }
+    }
+    drop(b);
+    for _ in 0..256 {
+        crossbeam_epoch::pin().flush();
+    }
+    let dropped = (0..2 * n).filter(|i| CHAIN_DROPS[*i].load(Ordering::SeqCst) == 1).count();
+    println!("DONE values={} dropped_once={}", 2 * n, dropped);
+    let _ = std::io::stdout().flush();
+    std::process::exit(0)
+}
+fn long_chain_part(res: &mut PartResult) {
+    res.engine = "E3 chain lengths x (push all, one clear_with, drive the epoch collector), each in its own process".into();
+    let exe = std::env::current_exe().unwrap();
+    let mut states = std::collections::BTreeSet::new();
+    for blocks in [1usize, 2, 30, 31, 32, 33, 40, 63] {
+        res.executions += 1;
+        res.transitions += (2 * (blocks * 64 + 5) + 2) as u64;
+        let out = std::process::Command::new(&exe).env("C05_CHAIN_PROBE", blocks.to_string()).output();
+        let cfg = json!({"chain_blocks": blocks});
+        match out {
+            Err(e) => res.error = Some(format!("cannot run the probe: {}", e)),
+            Ok(o) => {
+                use std::os::unix::process::ExitStatusExt;
+                let txt = String::from_utf8_lossy(&o.stdout).to_string();
+                states.insert((o.status.code(), o.status.signal(), txt.contains("DOUBLE")));
+                let doubles: Vec<&str> = txt.lines().filter(|l| l.starts_with("DOUBLE")).collect();
+                if let Some(l) = txt.lines().find(|l| l.starts_with("HANDOVER")) {
+                    res.violation("lost-value", format!("a chain of {} blocks cleared by one clear_with: {}", blocks, l), cfg.clone());
+                }
+                if !doubles.is_empty() {
+                    res.violation("value-dropped-twice", format!("{} values with a destructor in a chain of {} blocks, one clear_with, then the epoch collector driven: {} destructor runs beyond the first (e.g. {:?}){}", blocks * 64 + 5, blocks, doubles.len(), doubles[0], o.status.signal().map(|s| format!("; the process then died of signal {}", s)).unwrap_or_default()), cfg.clone());
+                } else if let Some(sig) = o.status.signal() {
+                    res.violation("memory-unsafe-reclamation", format!("a chain of {} blocks cleared by one clear_with, then the epoch collector driven: the process died of signal {}", blocks, sig), cfg.clone());
+                } else if o.status.code() != Some(0) || !txt.contains("DONE") {
+                    res.violation("panic", format!("chain of {} blocks: probe ended with status {:?}: {}", blocks, o.status.code(), String::from_utf8_lossy(&o.stderr).chars().take(300).collect::<String>()), cfg.clone());
+                }
+            }
+        }
+    }
+    res.states = states.len() as u64;
+    res.distinct_outcomes = states.len() as u64;
+    res.sample(json!({"blocks": 40, "values": 2565, "expected": "each handed to the one clear exactly once; no destructor runs twice; the process survives reclamation"}));
+}
+
 fn parts(ctx: &Ctx) -> Vec<PartSpec> {
     let mut v = Vec::new();
+    v.push(PartSpec::new("e3-long-chains-one-clear", json!({"chain": true})).budget(120.0));
     if ctx.quick() {
         for s in ["S1", "S2", "S2b", "S3", "S3b", "S3c", "S4", "S4h", "S5", "S5h", "S5f", "S5g", "S6"] {
             v.push(PartSpec::new(&format!("{}-pb2", s), json!({"scn": s, "pb": 2})).budget(120.0));
@@ -471,6 +564,10 @@ fn run(ctx: &Ctx, spec: &PartSpec) -> PartResult {
         vcore::loompart::run_bucket_with_budget(s, spec.arg["pb"].as_u64(), ctx.budget_s, &mut res);
         return res;
     }
+    if spec.arg["chain"].as_bool() == Some(true) {
+        long_chain_part(&mut res);
+        return res;
+    }
     let scn = spec.arg["scn"].as_str().unwrap_or("S1").to_string();
     let pb = spec.arg["pb"].as_u64().unwrap_or(2) as usize;
     // impatient waits: a waiting reader's first 24 retries return at once (a spinning thread keeps running whether or
@@ -492,10 +589,13 @@ fn run(ctx: &Ctx, spec: &PartSpec) -> PartResult {
 }
 
 fn main() {
+    if let Ok(a) = std::env::var("C05_CHAIN_PROBE") {
+        chain_probe(&a);
+    }
     driver::main(CheckDef {
         prop: "C05",
         level: "model_checking",
-        rule: "E2: loom 0.7.2 explores every C11 execution (which store each load reads, preemption-bounded) of the repository's own bucket.rs with crossbeam-epoch / crossbeam-utils compiled in their loom mode, every slot access tracked: pusher(2) || clearer, pusher(2) || snapshot reader + is_empty, two pushers || clearer, pusher || clearer || snapshot / second clearer, each also with 63 / 64 pre-filled slots (block hand-over inside the window); oracle: multiset conservation over all clears + final drain, per-block push order, snapshots show no fabricated / duplicated value and every completed push, and loom's own report of slot accesses not ordered by happens-before; E1: every interleaving (at atomic-operation granularity, sequentially consistent) of 3 real threads over the real AtomicBucket with at most pb preemptions; scenarios: 2 pushers x 2 pushes || clearer, pusher || reader(data_with,is_empty,data) || clearer, pusher || two clearers, each also with 63/62 pre-filled slots so the racing pushes straddle the block hand-over, and with a destructor-carrying payload; distinct = distinct (clear deliveries, snapshots, is_empty answers) outcome",
+        rule: "E2: loom 0.7.2 explores every C11 execution (which store each load reads, preemption-bounded) of the repository's own bucket.rs with crossbeam-epoch / crossbeam-utils compiled in their loom mode, every slot access tracked: pusher(2) || clearer, pusher(2) || snapshot reader + is_empty, two pushers || clearer, pusher || clearer || snapshot / second clearer, each also with 63 / 64 pre-filled slots (block hand-over inside the window); oracle: multiset conservation over all clears + final drain, per-block push order, snapshots show no fabricated / duplicated value and every completed push, and loom's own report of slot accesses not ordered by happens-before; E1: every interleaving (at atomic-operation granularity, sequentially consistent) of 3 real threads over the real AtomicBucket with at most pb preemptions; scenarios: 2 pushers x 2 pushes || clearer, pusher || reader(data_with,is_empty,data) || clearer, pusher || two clearers, each also with 63/62 pre-filled slots so the racing pushes straddle the block hand-over, and with a destructor-carrying payload; E3 long chains: 1..63 blocks of destructor-carrying values pushed, one clear_with (each value handed over once), the epoch collector driven, twice, each length in its own process: no destructor runs twice, the process survives; distinct = distinct (clear deliveries, snapshots, is_empty answers) outcome",
         assumptions: &["E1: sequential consistency; E2: loom's C11 model (no SeqCst-fence weakening beyond what loom implements), Block::new built field by field instead of zeroed (loom atomics cannot be zero-initialised)", "scheduling points = every facade atomic / epoch-pointer operation + the slot write; other code between two points runs atomically", "BLOCK_SIZE = 64"],
         parts,
         run,
